@@ -47,6 +47,19 @@ class Env:
         self.log.append((self.tag, "effect", n, None))
 
 
+class FalsyDisposable:
+    """a disposable with a zero length, like an empty CompositeDisposable: falsy, yet it must be disposed"""
+
+    def __init__(self, action):
+        self._action = action
+
+    def __len__(self):
+        return 0
+
+    def dispose(self):
+        self._action()
+
+
 class MSource:
     def __init__(self, env, k):
         import reactivex
@@ -81,7 +94,10 @@ class MSource:
                         pass
                     except Exception as e:
                         env.escapes.append((env.tag, e))
-            return Disposable(dispose)
+            # every second subscription of a run hands out a disposable whose truth value is False (as an empty
+            # CompositeDisposable has): holders must test `is not None`, never truthiness
+            env._nsubs = getattr(env, "_nsubs", 0) + 1
+            return (FalsyDisposable if env._nsubs % 2 == 0 else Disposable)(dispose)
         self.observable = reactivex.Observable(subscribe)
 
     def live(self):
